@@ -319,6 +319,12 @@ impl EmmyLuaAnalysis {
 
     /// 清理文件系统中不再存在的文件
     pub fn cleanup_nonexistent_files(&mut self) {
+        self.cleanup_nonexistent_files_except(&HashSet::new());
+    }
+
+    /// Like `cleanup_nonexistent_files`, but keeps the files in `keep` (documents that are
+    /// open in the editor and may never have been saved to disk).
+    pub fn cleanup_nonexistent_files_except(&mut self, keep: &HashSet<Uri>) {
         let mut files_to_remove = Vec::new();
 
         // 获取所有当前在VFS中的文件
@@ -334,6 +340,7 @@ impl EmmyLuaAnalysis {
             }
             if let Some(path) = vfs.get_file_path(&file_id).filter(|path| !path.exists())
                 && let Some(uri) = file_path_to_uri(path)
+                && !keep.contains(&uri)
             {
                 files_to_remove.push(uri);
             }
